@@ -39,11 +39,12 @@ def execute(acc, case):
     rng = random.Random(case["seed"])
     cause, point, role = case["cause"], case["point"], case["role"]
     sc = N.Scenario(seed=case["seed"], strategy=case["strategy"], p=case.get("p", 0.1), role=role, apps=[16777251],
-                    lines=case["strategy"] != "rr", max_steps=700_000, wall_s=120, transport=case.get("transport", "TCP"))
+                    lines=case["strategy"] != "rr" or case.get("park_psm") is not None, max_steps=700_000, wall_s=120, transport=case.get("transport", "TCP"))
     wit = {"case": case}
     if case.get("transport") == "SCTP":
         acc.counters["sctp_executions"] += 1      # SctpClient/SctpServer over a fake pysctp module (bvm/vnet.py)
     consumer_state = {"returned": None, "started": False}
+    cause_applied = [False]
     with sc:
         scen.slow_ticker(0.001)
         try:
@@ -131,6 +132,21 @@ def execute(acc, case):
                         s.parks.append({"task": "consumer", "nth": case["park"], "release": lambda: sc.state() == "Closed", "timeout": 2.0})     # 2 virtual s at most: it may be holding the association lock
                     sc.sched.spawn("consumer", submitter)      # named like the consumer so that it is not counted as a node task
                     s.run_until(lambda: sub_state["calls"] > 3, 1.0, "submitting")
+                if point == "open-inbound-in-progress":
+                    # the connection ends while the state-machine thread is in the middle of handling a message that has just
+                    # come in (a CER on the open connection, a DWR, an application request): the thread stands at the k-th line of
+                    # the handling functions until the cause has been applied, then goes on
+                    kind = case["inflight"]
+                    psm_name = "client_psm_thread" if role == "client" else "server_psm_thread"
+                    s.parks.append({"task": psm_name, "nth": case["park_psm"], "timeout": 0.05, "release": lambda: cause_applied[0],
+                                    "funcs": {"event_open_rcv_cer", "event_open_rcv_dwr", "event_open_rcv_message", "event_open_rcv_dwa", "create_answer",
+                                              "send_message", "set_open_state", "notify_postprocess_message", "get_message", "is_valid_capability_exchange",
+                                              "is_valid_device_watchdog", "process_request"}})
+                    sc.inject(R.encode({"CER": N.cer(apps=sc.apps, hbh=31, e2e=32), "DWR": N.dwr(hbh=33, e2e=34),
+                                        "APP": N.app_request(120, dest_realm=N.LOCAL[1])}[kind]))
+                    s.run_until(lambda: bool(s.parked_at), 0.05, "psm-parks-inside-the-handler")
+                    if s.parked_at:
+                        acc.counters["state_machine_parked_inside_a_handler_across_the_end"] += 1
                 if point == "closing":
                     node.close()
                     s.run_until(lambda: node.get_current_state() == "Closing", 5, "closing")
@@ -138,6 +154,7 @@ def execute(acc, case):
             t_cause = s.now
             if cause == "local-close":
                 node.close()
+                cause_applied[0] = True
                 s.run_until(lambda: sc._have_emitted(1) and any(N.name_of(m) == "DPR" for m in sc.read_emitted()) or sc.state() == "Closed", 20, "dpr")
                 d = [m for m in sc.emitted_msgs if N.name_of(m) == "DPR"]
                 if d:
@@ -150,6 +167,7 @@ def execute(acc, case):
             elif cause == "peer-reset":
                 sc.node_sock.reset = True
                 sc.peer_sock.close()
+            cause_applied[0] = True
             # ---------------- end-of-life conditions
             node_tasks = lambda: [t for t in s.live_tasks() if t.name != "consumer"]
             ended = s.run_until(lambda: sc.state() == "Closed" and not node_tasks(), 60.0, "end-of-life")
@@ -310,6 +328,12 @@ def main(tier, seed):
             for role in ("client", "server"):
                 cases.append({"seed": seed * 7919 + len(cases), "cause": cause, "point": "consumer-blocked", "role": role, "strategy": "rw",
                               "p": 0.02, "transport": "TCP", "dpr_cause": nth % 3 if cause == "peer-dpr" else 0, "park": nth})
+    for kind in ("CER", "DWR", "APP"):
+        for cause in ("local-close", "peer-disconnect", "peer-dpr"):
+            for nth in range(0, 40, 2 if q else 1):
+                for role in (("client", "server")[(nth // 2) % 2],) if q else ("client", "server"):
+                    cases.append({"seed": seed * 7919 + len(cases), "cause": cause, "point": "open-inbound-in-progress", "role": role, "strategy": "rr",
+                                  "transport": "TCP", "dpr_cause": 0, "inflight": kind, "park_psm": nth})
     for nth in range(0, 130 if q else 160):
         cases.append({"seed": seed * 7919 + len(cases), "cause": "refused", "point": "during-connect", "role": "client", "strategy": "rw", "p": 0.02,
                       "transport": "TCP", "park": nth})
@@ -335,7 +359,7 @@ def main(tier, seed):
                           ["bounds are on the virtual clock (60 s) and the step counter; a wall-clock watchdog firing is inconclusive",
                            "refused connection follows Linux semantics observed on the real loopback: first send() raises ConnectionRefusedError, later ones BrokenPipeError",
                            "combinations the statement does not reach (close() before Open is a no-op, DPR outside Open) are left to C06's soft cells"],
-                          t0, extra_cov={"cells": cells}, require_counters=("executions", "restarts_ok", "consumer_returned", "real_loopback_ok", "twin_node_executions", "other_node_still_working", "setup_failures_injected", "drained_after_the_end"))
+                          t0, extra_cov={"cells": cells}, require_counters=("state_machine_parked_inside_a_handler_across_the_end", "executions", "restarts_ok", "consumer_returned", "real_loopback_ok", "twin_node_executions", "other_node_still_working", "setup_failures_injected", "drained_after_the_end"))
 
 
 def replay(w):
